@@ -27,12 +27,15 @@ CHECKS = {
         text=("TLC model-checks DecoderImpl (window refill with istream eof semantics) against the property-level decoder "
               "(AbsExpect: exhausted stream => end-of-input for every operation) for windows 2..7, every generated item, every "
               "truncation and alignment; recorded executions of the real decoder on streams of length k*65535+d (and k*5+d on a "
-              "scaled window), string/file/unopened streams, first operation peek or read, and every truncation of every "
-              "generated item are validated event by event. File-level part (only complete blocks from a truncated file) is "
-              "covered by the reader traces of C01/C08."),
+              "scaled window), string / file / forward-only / breaking (I/O error at a refill) / unopened streams, first operation "
+              "peek or read, and every truncation of every generated item are validated event by event. File level: Reader.tla (the "
+              "reader as a state machine over header / block / break tokens, both kinds of blocks array, every cut) is model-checked; "
+              "real exporter files and TLC-written variants with a definite-length blocks array / indefinite-length file array are "
+              "cut at block boundaries, window boundaries and random points: exactly the complete blocks, then end-of-input."),
         design_ref="DESIGN.md section 3 / C05",
         note=TRUST + "lengths beyond 3 windows and cut points away from window/block boundaries are sampled, not exhaustive.",
-        technique="TLA+ spec (Decoder.tla) model-checked with TLC + TLC trace validation of recorded decoder calls (TraceDecoder.tla)",
+        technique="TLA+ specs (Decoder.tla, Reader.tla) model-checked with TLC + TLC trace validation of recorded decoder calls "
+                  "(TraceDecoder.tla) and of reader dumps of truncated files (TraceReader.tla)",
     ),
     "C07": dict(
         category="model_checking",
@@ -79,7 +82,9 @@ CHECKS = {
               "bytes that no member excluded by a cleared bit is present, that every table entry is reachable from a stored item, "
               "that AEC/MM arrays exist only when enabled, and that the preamble states the hints applied. The same masks are put in "
               "force on a block the application keeps itself (armed with a set other than #0, moved / copied to another object - "
-              "also by a growing std::vector -, written, cleared, re-used): MCExporterX + replay."),
+              "also by a growing std::vector -, taken through a file and the reader, written, cleared, re-used): MCExporterX + replay. "
+              "Members of resource records (ttl, rdata) and whole malformed messages / address events the hints exclude count like "
+              "excluded members of a record."),
         design_ref="DESIGN.md section 3 / C04",
         note=TRUST + "2^18 x 2^17 masks are covered by families and random samples, not enumerated.",
         technique="TLC trace validation: hint semantics in Records.tla applied to submitted records, compared with the TLA+ RFC 8618 "
@@ -100,7 +105,8 @@ CHECKS = {
         text=("TLC keeps, in the Exporter model, the sum of the byte counts returned by buffer/write_block/rotate calls per output and "
               "compares it with the uncompressed size of the real closed output (+1 on destruction) for every history (three "
               "compression modes, file-name and descriptor outputs, rotations, empty structures; an output that holds no block must "
-              "have received exactly what was reported, i.e. nothing); per-call counts of the encoder are "
+              "have received exactly what was reported, i.e. nothing; the ledger is a matter of sizes and is evaluated whether or not "
+              "the content parses; exporters destroyed by stack unwinding; outputs with more than 2^16 blocks); per-call counts of the encoder are "
               "validated against Len(EncBytes) by TraceEncoder (see C06)."),
         design_ref="DESIGN.md section 3 / C10",
         note=TRUST + "python3 zlib/lzma.",
@@ -134,7 +140,8 @@ CHECKS = {
               "for all histories of add/clear/copy/destroy up to 5-6 steps; TLC emits every history and the driver replays them on "
               "each of the nine real tables with values handed over in fresh objects and in re-used scratch objects that keep their "
               "capacity (pairs differing in exactly one optional member, the empty list and the empty string among them), "
-              "plus growth sequences of thousands of adds; every returned index, size and read-back value is validated by TLC. "
+              "plus growth sequences of thousands of adds and longer random histories with assignments onto used blocks; every returned "
+              "index, size and read-back value is validated by TLC; 8 threads filling their own blocks at the same time. "
               "Exporter streams across many flushes: TLC checks every written table for duplicates and index closure."),
         design_ref="DESIGN.md section 3 / C11",
         note=TRUST + "value ids are mapped to concrete table values by the driver (harness/tbl_driver.cpp).",
@@ -179,7 +186,8 @@ CHECKS = {
               "end are validated by TLC: each closed output must be a single complete stream (python zlib/lzma, independent) with "
               "the right suffix whose content is exactly the chunk sequence / record sequence of the scenario; also for incompressible "
               "outputs through the residues of the compressors' chunking, chunk lengths around the scratch-buffer fractions "
-              "behind a backlog (ASan) and sessions run during stack unwinding."),
+              "behind a backlog (ASan), sessions run during stack unwinding, 16 threads each driving its own compressed output, and - "
+              "through the fault sweep - outputs opened after a fault that nobody reported."),
         design_ref="DESIGN.md section 3 / C14",
         note=TRUST + "python3 zlib/lzma; the driver's memcmp of decompressed data against the chunks it generated.",
         technique="TLA+ spec (Writer.tla) model-checked with TLC + TLC trace validation of recorded writer/exporter runs (TraceWriter.tla)",
@@ -192,7 +200,8 @@ CHECKS = {
               "final name) must be found. On the real code every scenario is re-run in a child process killed immediately before "
               "its k-th write/writev/rename for every k; TLC validates the system-call log (data only to .part, rename only "
               ".part -> final, nothing after the rename) and every post-crash directory (names re-used, stale .part files, "
-              "compressed outputs closed while the compressor holds back tens of KiB)."),
+              "compressed outputs closed while the compressor holds back tens of KiB, a final rotation that cannot succeed, a rename the "
+              "environment refuses)."),
         design_ref="DESIGN.md section 3 / C15",
         note=TRUST + "interposition of write/writev/rename in the driver executable; crash = _exit before the call (no power-loss semantics).",
         technique="TLA+ spec (Writer.tla) model-checked with TLC over all crash points + crash-point enumeration on the real code "
@@ -235,6 +244,7 @@ CHECKS = {
               "concurrently; every per-thread trace is validated by TLC with the same TraceExporter specification used for "
               "sequential runs, so any deviation from the sequential semantics (wrong bytes, records, counters) is a violation; "
               "the same driver runs under ThreadSanitizer, whose race report truncates the traces and is recorded as a violation; "
+              "pairs of exporters and pairs of readers operated alternately on ONE thread must behave as if alone; "
               "every closed output of the concurrent run must be byte-identical to that of the same programs run one after "
               "another on one thread (digests compared by TLC, TraceReader event B); concurrent readers likewise."),
         design_ref="DESIGN.md section 3 / C20",
